@@ -81,6 +81,13 @@ mod imp {
         ca_blake3_hasher_init ca_blake3_hasher_init_keyed ca_blake3_hasher_init_derive_key ca_blake3_hasher_init_derive_key_raw ca_blake3_hasher_update ca_blake3_hasher_finalize ca_blake3_hasher_finalize_seek ca_blake3_hasher_reset ca_g_cpu_features ca_blake3_simd_degree ca_blake3_compress_subtree_wide;
         ci_blake3_hasher_init ci_blake3_hasher_init_keyed ci_blake3_hasher_init_derive_key ci_blake3_hasher_init_derive_key_raw ci_blake3_hasher_update ci_blake3_hasher_finalize ci_blake3_hasher_finalize_seek ci_blake3_hasher_reset ci_g_cpu_features ci_blake3_simd_degree ci_blake3_compress_subtree_wide;
         ct_blake3_hasher_init ct_blake3_hasher_init_keyed ct_blake3_hasher_init_derive_key ct_blake3_hasher_init_derive_key_raw ct_blake3_hasher_update ct_blake3_hasher_finalize ct_blake3_hasher_finalize_seek ct_blake3_hasher_reset ct_g_cpu_features ct_blake3_simd_degree ct_blake3_compress_subtree_wide;
+        cr_blake3_hasher_init cr_blake3_hasher_init_keyed cr_blake3_hasher_init_derive_key cr_blake3_hasher_init_derive_key_raw cr_blake3_hasher_update cr_blake3_hasher_finalize cr_blake3_hasher_finalize_seek cr_blake3_hasher_reset cr_g_cpu_features cr_blake3_simd_degree cr_blake3_compress_subtree_wide;
+        cri_blake3_hasher_init cri_blake3_hasher_init_keyed cri_blake3_hasher_init_derive_key cri_blake3_hasher_init_derive_key_raw cri_blake3_hasher_update cri_blake3_hasher_finalize cri_blake3_hasher_finalize_seek cri_blake3_hasher_reset cri_g_cpu_features cri_blake3_simd_degree cri_blake3_compress_subtree_wide;
+        cn1_blake3_hasher_init cn1_blake3_hasher_init_keyed cn1_blake3_hasher_init_derive_key cn1_blake3_hasher_init_derive_key_raw cn1_blake3_hasher_update cn1_blake3_hasher_finalize cn1_blake3_hasher_finalize_seek cn1_blake3_hasher_reset cn1_g_cpu_features cn1_blake3_simd_degree cn1_blake3_compress_subtree_wide;
+        cn2_blake3_hasher_init cn2_blake3_hasher_init_keyed cn2_blake3_hasher_init_derive_key cn2_blake3_hasher_init_derive_key_raw cn2_blake3_hasher_update cn2_blake3_hasher_finalize cn2_blake3_hasher_finalize_seek cn2_blake3_hasher_reset cn2_g_cpu_features cn2_blake3_simd_degree cn2_blake3_compress_subtree_wide;
+        cn3_blake3_hasher_init cn3_blake3_hasher_init_keyed cn3_blake3_hasher_init_derive_key cn3_blake3_hasher_init_derive_key_raw cn3_blake3_hasher_update cn3_blake3_hasher_finalize cn3_blake3_hasher_finalize_seek cn3_blake3_hasher_reset cn3_g_cpu_features cn3_blake3_simd_degree cn3_blake3_compress_subtree_wide;
+        cn4_blake3_hasher_init cn4_blake3_hasher_init_keyed cn4_blake3_hasher_init_derive_key cn4_blake3_hasher_init_derive_key_raw cn4_blake3_hasher_update cn4_blake3_hasher_finalize cn4_blake3_hasher_finalize_seek cn4_blake3_hasher_reset cn4_g_cpu_features cn4_blake3_simd_degree cn4_blake3_compress_subtree_wide;
+        cn5_blake3_hasher_init cn5_blake3_hasher_init_keyed cn5_blake3_hasher_init_derive_key cn5_blake3_hasher_init_derive_key_raw cn5_blake3_hasher_update cn5_blake3_hasher_finalize cn5_blake3_hasher_finalize_seek cn5_blake3_hasher_reset cn5_g_cpu_features cn5_blake3_simd_degree cn5_blake3_compress_subtree_wide;
     }
 
     extern "C" {
@@ -101,6 +108,8 @@ mod imp {
         pub reset: unsafe extern "C" fn(*mut CHasher),
         pub features: *mut c_int,
         pub degree: unsafe extern "C" fn() -> usize,
+        /// BLAKE3_NO_* switches this build was compiled with: bit 0 NO_SSE2, 1 NO_SSE41, 2 NO_AVX2, 3 NO_AVX512
+        pub no: u8,
     }
     unsafe impl Sync for CApi {}
     unsafe impl Send for CApi {}
@@ -119,6 +128,7 @@ mod imp {
                 reset: $reset,
                 features: core::ptr::addr_of_mut!($features),
                 degree: $degree,
+                no: 0,
             }
         };
     }
@@ -128,6 +138,31 @@ mod imp {
     }
     pub fn api_intr() -> CApi {
         capi!("c:intrinsics", ci_blake3_hasher_init ci_blake3_hasher_init_keyed ci_blake3_hasher_init_derive_key ci_blake3_hasher_init_derive_key_raw ci_blake3_hasher_update ci_blake3_hasher_finalize ci_blake3_hasher_finalize_seek ci_blake3_hasher_reset ci_g_cpu_features ci_blake3_simd_degree)
+    }
+    pub fn api_cr() -> CApi {
+        capi!("c:asm(NDEBUG)", cr_blake3_hasher_init cr_blake3_hasher_init_keyed cr_blake3_hasher_init_derive_key cr_blake3_hasher_init_derive_key_raw cr_blake3_hasher_update cr_blake3_hasher_finalize cr_blake3_hasher_finalize_seek cr_blake3_hasher_reset cr_g_cpu_features cr_blake3_simd_degree)
+    }
+    pub fn api_cri() -> CApi {
+        capi!("c:intrinsics(NDEBUG)", cri_blake3_hasher_init cri_blake3_hasher_init_keyed cri_blake3_hasher_init_derive_key cri_blake3_hasher_init_derive_key_raw cri_blake3_hasher_update cri_blake3_hasher_finalize cri_blake3_hasher_finalize_seek cri_blake3_hasher_reset cri_g_cpu_features cri_blake3_simd_degree)
+    }
+    pub fn api_cn1() -> CApi {
+        CApi { no: 2, ..capi!("c:intrinsics(NO_SSE41)", cn1_blake3_hasher_init cn1_blake3_hasher_init_keyed cn1_blake3_hasher_init_derive_key cn1_blake3_hasher_init_derive_key_raw cn1_blake3_hasher_update cn1_blake3_hasher_finalize cn1_blake3_hasher_finalize_seek cn1_blake3_hasher_reset cn1_g_cpu_features cn1_blake3_simd_degree) }
+    }
+    pub fn api_cn2() -> CApi {
+        CApi { no: 8, ..capi!("c:intrinsics(NO_AVX512)", cn2_blake3_hasher_init cn2_blake3_hasher_init_keyed cn2_blake3_hasher_init_derive_key cn2_blake3_hasher_init_derive_key_raw cn2_blake3_hasher_update cn2_blake3_hasher_finalize cn2_blake3_hasher_finalize_seek cn2_blake3_hasher_reset cn2_g_cpu_features cn2_blake3_simd_degree) }
+    }
+    pub fn api_cn3() -> CApi {
+        CApi { no: 12, ..capi!("c:intrinsics(NO_AVX512,NO_AVX2)", cn3_blake3_hasher_init cn3_blake3_hasher_init_keyed cn3_blake3_hasher_init_derive_key cn3_blake3_hasher_init_derive_key_raw cn3_blake3_hasher_update cn3_blake3_hasher_finalize cn3_blake3_hasher_finalize_seek cn3_blake3_hasher_reset cn3_g_cpu_features cn3_blake3_simd_degree) }
+    }
+    pub fn api_cn4() -> CApi {
+        CApi { no: 15, ..capi!("c:portable-only(all NO_*)", cn4_blake3_hasher_init cn4_blake3_hasher_init_keyed cn4_blake3_hasher_init_derive_key cn4_blake3_hasher_init_derive_key_raw cn4_blake3_hasher_update cn4_blake3_hasher_finalize cn4_blake3_hasher_finalize_seek cn4_blake3_hasher_reset cn4_g_cpu_features cn4_blake3_simd_degree) }
+    }
+    pub fn api_cn5() -> CApi {
+        CApi { no: 1, ..capi!("c:intrinsics(NO_SSE2)", cn5_blake3_hasher_init cn5_blake3_hasher_init_keyed cn5_blake3_hasher_init_derive_key cn5_blake3_hasher_init_derive_key_raw cn5_blake3_hasher_update cn5_blake3_hasher_finalize cn5_blake3_hasher_finalize_seek cn5_blake3_hasher_reset cn5_g_cpu_features cn5_blake3_simd_degree) }
+    }
+    /// Every C library build: index 0 = assembly, 1 = C intrinsics, then the NDEBUG and BLAKE3_NO_* builds.
+    pub fn all_apis() -> Vec<CApi> {
+        vec![api_asm(), api_intr(), api_cr(), api_cri(), api_cn1(), api_cn2(), api_cn3(), api_cn4(), api_cn5()]
     }
     pub fn api_tbb() -> CApi {
         capi!("c:tbb-seam", ct_blake3_hasher_init ct_blake3_hasher_init_keyed ct_blake3_hasher_init_derive_key ct_blake3_hasher_init_derive_key_raw ct_blake3_hasher_update ct_blake3_hasher_finalize ct_blake3_hasher_finalize_seek ct_blake3_hasher_reset ct_g_cpu_features ct_blake3_simd_degree)
@@ -142,6 +177,23 @@ mod imp {
     pub const F_AVX512F: c_int = 1 << 5;
     pub const F_AVX512VL: c_int = 1 << 6;
     pub const F_UNDEFINED: c_int = 1 << 30;
+
+    impl CApi {
+        /// blake3_simd_degree() of this build under the feature mask of level `l` (mirrors the documented dispatch order)
+        pub fn expected_degree(&self, l: Level) -> usize {
+            if l >= Level::Avx512 && self.no & 8 == 0 {
+                16
+            } else if l >= Level::Avx2 && self.no & 4 == 0 {
+                8
+            } else if l >= Level::Sse41 && self.no & 2 == 0 {
+                4
+            } else if l >= Level::Sse2 && self.no & 1 == 0 {
+                4
+            } else {
+                1
+            }
+        }
+    }
 
     /// The feature mask the dispatcher would compute on a CPU whose best level is `l`.
     pub fn mask_for(l: Level) -> c_int {
@@ -174,6 +226,7 @@ mod imp {
     }
     extern "C" {
         pub fn ca_blake3_hash_many_avx2(inputs: *const *const u8, n: usize, blocks: usize, key: *const u32, counter: u64, inc: bool, flags: u8, fs: u8, fe: u8, out: *mut u8);
+        pub fn cn1_blake3_hash_many_avx2(inputs: *const *const u8, n: usize, blocks: usize, key: *const u32, counter: u64, inc: bool, flags: u8, fs: u8, fe: u8, out: *mut u8);
         pub fn ci_blake3_hash_many_avx2(inputs: *const *const u8, n: usize, blocks: usize, key: *const u32, counter: u64, inc: bool, flags: u8, fs: u8, fe: u8, out: *mut u8);
         pub fn ca_blake3_xof_many_avx512(cv: *const u32, block: *const u8, block_len: u8, counter: u64, flags: u8, out: *mut u8, n: usize);
         pub fn ci_blake3_xof_many_avx512(cv: *const u32, block: *const u8, block_len: u8, counter: u64, flags: u8, out: *mut u8, n: usize);
@@ -241,6 +294,7 @@ mod imp {
             RawKernel { name: "c-intrinsics:sse2", level: Sse2, abi: SysV, asm: false, cip: Some(p!(ci_blake3_compress_in_place_sse2)), cxof: Some(p!(ci_blake3_compress_xof_sse2)), hm: p!(ci_blake3_hash_many_sse2), xm: None },
             RawKernel { name: "c-intrinsics:sse41", level: Sse41, abi: SysV, asm: false, cip: Some(p!(ci_blake3_compress_in_place_sse41)), cxof: Some(p!(ci_blake3_compress_xof_sse41)), hm: p!(ci_blake3_hash_many_sse41), xm: None },
             RawKernel { name: "c-intrinsics:avx2", level: Avx2, abi: SysV, asm: false, cip: None, cxof: None, hm: p!(ci_blake3_hash_many_avx2), xm: None },
+            RawKernel { name: "c-intrinsics(NO_SSE41):avx2", level: Avx2, abi: SysV, asm: false, cip: None, cxof: None, hm: p!(cn1_blake3_hash_many_avx2), xm: None },
             RawKernel { name: "c-intrinsics:avx512", level: Avx512, abi: SysV, asm: false, cip: Some(p!(ci_blake3_compress_in_place_avx512)), cxof: Some(p!(ci_blake3_compress_xof_avx512)), hm: p!(ci_blake3_hash_many_avx512), xm: Some(p!(ci_blake3_xof_many_avx512)) },
             RawKernel { name: "asm-windows-gnu:sse2", level: Sse2, abi: Win64, asm: true, cip: Some(p!(w64_blake3_compress_in_place_sse2)), cxof: Some(p!(w64_blake3_compress_xof_sse2)), hm: p!(w64_blake3_hash_many_sse2), xm: None },
             RawKernel { name: "asm-windows-gnu:sse41", level: Sse41, abi: Win64, asm: true, cip: Some(p!(w64_blake3_compress_in_place_sse41)), cxof: Some(p!(w64_blake3_compress_xof_sse41)), hm: p!(w64_blake3_hash_many_sse41), xm: None },
@@ -308,6 +362,9 @@ mod imp {
             } else {
                 None
             }
+        }
+        fn compress_xof_to(&self, cv: &[u32; 8], block: &[u8; 64], block_len: u8, counter: u64, flags: u8, out: *mut u8) -> bool {
+            unsafe { self.call_cxof(cv.as_ptr(), block.as_ptr(), block_len, counter, flags, out) }
         }
         fn hash_many(&self, inputs: &[*const u8], blocks: usize, key: &[u32; 8], counter: u64, inc: bool, flags: u8, fs: u8, fe: u8, out: &mut [u8], need: usize) {
             assert!(out.len() >= need);
